@@ -26,6 +26,13 @@ Theorem C13_clamp_oak : forall net s ts tt r, 0 <= p_child_target s ->
   int_to_target (p_child_target s * 1000 / 1004) <= r <= int_to_target (p_child_target s * 1004 / 1000).
 Proof. exact oak_clamp. Qed.
 Print Assumptions C13_clamp_oak.
+(* the same without saturation in the statement: every representable target moves by at most x1004/1000 each way *)
+Theorem C13_clamp_oak_exact : forall net s ts tt r, 0 <= p_child_target s <= maxT ->
+  n_oak_height net < child_height s -> child_height s <> n_asic_height net ->
+  adjust_target net s ts tt = Ok r ->
+  p_child_target s * 1000 / 1004 <= r <= p_child_target s * 1004 / 1000 /\ r <= maxT.
+Proof. exact oak_clamp_exact. Qed.
+Print Assumptions C13_clamp_oak_exact.
 
 Theorem C13_preoak_unchanged : forall net s ts tt r, child_height s <= n_oak_height net -> child_height s mod 500 <> 0 ->
   adjust_target net s ts tt = Ok r -> r = p_child_target s.
